@@ -434,6 +434,39 @@ func (e *c04Exec) subRun(z zoneCfg) (out []string, sdig string, infra string) {
 				}
 				src := c.Programs[op.Prog].Src
 				where := fmt.Sprintf("client %d op %d (%s %q)", ci, oi, op.Kind, src)
+				// The isolated execution again, on inputs and an expression of its own: with nothing
+				// shared, nothing interleaved and the clock pinned, a different outcome can only come from
+				// something outside (text, options, inputs) - map iteration order, a random source, an
+				// address, how much the process has done before. (On replay it is repeated more often: a
+				// source of randomness does not replay exactly, so the replay makes near-certain of it.)
+				reps := 1
+				if *fReplay != "" || *fMinimise != "" {
+					reps = 6
+				}
+				unstable := false
+				for k := 0; k < reps && !unstable; k++ {
+					in3, err := buildInputs(c)
+					if err != nil {
+						infra = "inputs: " + err.Error()
+						return
+					}
+					oc3 := newOpCtx(op.FailN)
+					var again opResult
+					fresh3 := compile(c.Programs[op.Prog], nil)
+					if err := r.solo(oc3, func() { again = execOp(op, oc3, fresh3, in3, &entry) }); err != nil {
+						infra = err.Error()
+						return
+					}
+					v.Stats.probe("isolated-execution-repeated")
+					if again.Outcome != ref.Outcome {
+						unstable = true
+						e.violate("isolation-reference", "unstable-in-isolation:"+outcomeClass(again.Outcome, ref.Outcome),
+							fmt.Sprintf("%s: two isolated executions (fresh compile, fresh inputs, same pinned instant %s, nothing shared) give %s and %s", where, entry.Format(time.RFC3339Nano), short(ref.Outcome, 400), short(again.Outcome, 400)))
+					}
+				}
+				if unstable {
+					continue
+				}
 				if got.Outcome != ref.Outcome {
 					e.violate("isolation-reference", "outcome:"+outcomeClass(got.Outcome, ref.Outcome),
 						fmt.Sprintf("%s: shared/interleaved outcome %s differs from isolated outcome %s (entry instant %s)", where, short(got.Outcome, 400), short(ref.Outcome, 400), entry.Format(time.RFC3339Nano)))
